@@ -2148,7 +2148,7 @@ fn expiry_family(tier: Tier) -> Vec<ExpirySpec> {
     let ds: &[u64] = tier.pick(&[0u64, 1, 100][..], &[0u64, 1, 2, 100, 86_400][..]);
     let gs: &[u64] = tier.pick(&[0u64, 100][..], &[0u64, 1, 100][..]);
     let mut out = vec![];
-    for kind in 0..3u8 {
+    for kind in 0..4u8 {
         for t in ts {
             for d in ds {
                 for g in gs {
@@ -2163,7 +2163,7 @@ fn expiry_family(tier: Tier) -> Vec<ExpirySpec> {
 fn run_expiry(ctx: &Ctx, idx: usize, s: &ExpirySpec, out: &mut Partial) {
     let prop = "C18";
     let m = &ctx.m;
-    let kind_name = ["export_as_keyed_shard(k1)", "export_with_expiration", "export_as_keyed_shard(zero key)"][s.kind as usize];
+    let kind_name = ["export_as_keyed_shard(k1)", "export_with_expiration", "export_as_keyed_shard(zero key)", "export_as_keyed_shard(k1, 1h) re-expired 7 s later by export_with_expiration"][s.kind as usize];
     let desc = format!("{kind_name} created at t={} valid for d={}s, grace g={}s", s.t, s.d, s.g);
     let replay = json!({"kind": "expiry", "export": s.kind, "t": s.t, "d": s.d, "g": s.g, "case_index": idx});
     out.count("expiry_cases", 1);
@@ -2174,24 +2174,33 @@ fn run_expiry(ctx: &Ctx, idx: usize, s: &ExpirySpec, out: &mut Partial) {
         return;
     };
     let d_e = ctx.fresh_dir("xe");
+    // kind 3: the validity counts from the moment of the re-export, whatever the age of the shard it is made from
+    let age: i64 = if s.kind == 3 { 7 } else { 0 };
+    let d_e0 = ctx.fresh_dir("xe0");
     let exp = step(prop, "export", &desc, &replay, out, || match s.kind {
         0 => sf.export_as_keyed_shard(&d_e, to_mh(&key_of(1)), Duration::from_secs(s.d), true, true, true).map_err(es),
         1 => sf.export_with_expiration(&d_e, Duration::from_secs(s.d)).map_err(es),
-        _ => sf.export_as_keyed_shard(&d_e, to_mh(&ZERO), Duration::from_secs(s.d), false, false, false).map_err(es),
+        2 => sf.export_as_keyed_shard(&d_e, to_mh(&ZERO), Duration::from_secs(s.d), false, false, false).map_err(es),
+        _ => {
+            let first = sf.export_as_keyed_shard(&d_e0, to_mh(&key_of(1)), Duration::from_secs(3600), true, true, true).map_err(es)?;
+            vcore::vfs::set_clock(Some(s.t + age));
+            first.export_with_expiration(&d_e, Duration::from_secs(s.d)).map_err(es)
+        },
     });
+    rm(&d_e0);
     if let Some(exp) = exp {
         let name = exp.path.file_name().unwrap().to_string_lossy().to_string();
         if let Ok(p) = parse_shard(&std::fs::read(&exp.path).unwrap_or_default()) {
-            if p.expiry != (s.t as u64) + s.d {
+            if p.expiry != ((s.t + age) as u64) + s.d {
                 out.count("info:footer_expiry_differs_from_creation_plus_validity", 1);
             }
             if s.kind != 1 && p.creation != s.t as u64 {
                 out.count("info:footer_creation_differs_from_clock", 1);
             }
         }
-        let expiry = s.t + s.d as i64 + if m.expiry_plus_two { 2 } else { 0 } - if m.expiry_minus_two { 2 } else { 0 };
+        let expiry = s.t + age + s.d as i64 + if m.expiry_plus_two { 2 } else { 0 } - if m.expiry_minus_two { 2 } else { 0 };
         let g = s.g as i64;
-        let nows: BTreeSet<i64> = [s.t, expiry - 1, expiry, expiry + 1, expiry + g - 1, expiry + g, expiry + g + 1].into_iter().filter(|n| *n >= 0).collect();
+        let nows: BTreeSet<i64> = [s.t + age, expiry - 1, expiry, expiry + 1, expiry + g - 1, expiry + g, expiry + g + 1].into_iter().filter(|n| *n >= 0).collect();
         let probe = mk_query("A".into(), vec![sym_hash(0)]);
         for now in nows {
             vcore::vfs::set_clock(Some(now));
